@@ -32,3 +32,21 @@ package job
 //@   safety overflow, nil
 //@   requires cfg != nil
 //@   ensures [C12] force-value: result == (cfg.ForceDeleteTaskTimeoutSeconds != nil ? *cfg.ForceDeleteTaskTimeoutSeconds : 0) * 1000000000
+
+// ---- active.go ------------------------------------------------------------------
+
+//@ pure IsStarted(rj *execution.Job) bool = !rj.Status.StartTime.IsZero()
+//@ pure IsQueued(rj *execution.Job) bool = !IsStarted(rj) && !rj.Status.Phase.IsTerminal()
+//@ pure IsActive(rj *execution.Job) bool = IsStarted(rj) && !rj.Status.Phase.IsTerminal()
+
+//@ func IsStarted
+//@   requires rj != nil
+//@   ensures [C05,C06,C07,C11] result == IsStarted(rj)
+
+//@ func IsQueued
+//@   requires rj != nil
+//@   ensures [C05,C06,C07] result == IsQueued(rj)
+
+//@ func IsActive
+//@   requires rj != nil
+//@   ensures [C05,C06,C15] result == IsActive(rj)
